@@ -34,6 +34,9 @@ pub fn run(args: &Args, out: &mut dyn Write) -> Stats {
     for t in dnsgen::at16k_cases(&mut g.r, &mut g.stats) {
         writeln!(out, "{}", t.0).unwrap();
     }
+    for t in dnsgen::dropfit_cases(&mut g.r, &mut g.stats) {
+        writeln!(out, "{}", t.0).unwrap();
+    }
     for i in 0..args.n {
         let t = if let Some(k) = g.big_slot(i) {
             match k % 10 {
